@@ -50,6 +50,22 @@ CHECKS.update({
    note="Trusted: TLC and the tabulation in vworker (one call per method and argument pair).", technique="TLA+ laws checked by TLC on the recorded method table (exhaustive)"),
 })
 
+CHECKS.update({
+ "C11": dict(cat="model_checking", design="DESIGN.md 5 C11", engine="Scanner",
+   text="Scanner.tla models parser/scanner.go one step per inspected character; TLC enumerates every tape over 17 character classes up to the bound and "
+        "checks LinearReads (safety form of termination with the linear bound) and ScanTerminates (liveness under weak fairness); each tape is concretised "
+        "and run through the real lexer (token stream must equal the specification's) and through ParseString in a watchdogged worker (must return); "
+        "pumped inputs check the linear bound, truncated / byte-mutated real programs the rest of the parser.",
+   note="Trusted: TLC, vworker watchdog (5 s per call, 20 s for pumped inputs). The goyacc automaton is exercised, not modelled.",
+   technique="TLA+ scanner state machine + TLC exhaustive over all short tapes + replay of every tape on the real lexer/parser"),
+ "C12": dict(cat="model_checking", design="DESIGN.md 5 C12", engine="Scanner",
+   text="Lexical part decided by Scanner.tla (NoSilentEnd: an out-of-alphabet character never ends the stream silently; every tape replayed on the real parser); "
+        "grammar part by conformance experiments on real programs: re-layout with tricky comments must keep exactly the written declarations, insertion of "
+        "out-of-alphabet characters at token boundaries must be rejected.",
+   note="Trusted: TLC, vworker; the declaration oracle is an independent comment-aware scan for reserved words. The grammar is not specified in TLA+.",
+   technique="TLA+ scanner specification + TLC enumeration of tapes + replay on the real parser; insertion / re-layout experiments"),
+})
+
 REASON_TODO = "check not built yet (build in progress, see DESIGN.md section 9)"
 
 def main():
@@ -67,6 +83,8 @@ def main():
               "kind_free_text": "trace specification: recorded hook events of the real interpreter must be a behaviour of GritsRT"},
              {"name": "TypeEq/WellFormed/ModeInfer/TypeDefs/Modes", "path": "spec/TypeEq.tla", "serves_properties": ["C08", "C10", "C16", "C17"],
               "kind_free_text": "TLA+ specifications of type equality, well-formedness, mode inference and the mode order; TLC validates call logs of the real library"},
+             {"name": "Scanner", "path": "spec/Scanner.tla", "serves_properties": ["C11", "C12"],
+              "kind_free_text": "TLA+ state machine of the hand-written scanner over character classes; TLC enumerates all short inputs"},
              {"name": "vworker", "path": "harness/cmd/vworker", "serves_properties": ["C08", "C09", "C10", "C11", "C12", "C15", "C16", "C17"],
               "kind_free_text": "crash-isolated server for library calls of gertab/Grits"},
              {"name": "vdrive", "path": "harness/cmd/vdrive", "serves_properties": ["C01", "C02", "C03", "C04", "C13", "C19"],
